@@ -228,6 +228,12 @@ func (v *Val) Build(order int) interface{} {
 		return []byte(v.S)
 	case "buffer": // *bytes.Buffer: a value whose own methods (WriteTo, Read, Next) consume it
 		return bytes.NewBufferString(v.S)
+	case "sortable": // sort.StringSlice: a value that knows how to sort ITSELF
+		out := sort.StringSlice{}
+		for _, e := range v.L {
+			out = append(out, e.S)
+		}
+		return out
 	case "bigint": // *big.Int
 		return big.NewInt(v.I)
 	case "bigrat": // *big.Rat
